@@ -385,9 +385,11 @@ Fixpoint tsearch (fuel : nat) (tb : N) (cands : list prefix) (dpt : nat) (s : bi
     | O => Err InsufficientData
     | S f =>
       let t := Nat.min 6 (max_code_len cands - dpt) in
-      let a := length s in
+      (* only the first 70 bits matter: with 70 or more bits left every stride is read in
+         full wherever the word boundary is, so the position is not even computed then *)
+      let a := length (firstn 70 s) in
       if Nat.eqb a 0 then Err InsufficientData else
-      let j := N.to_nat ((tb - Nlen s) mod 64) in
+      let j := if Nat.ltb a 70 then N.to_nat ((tb - Nlen s) mod 64) else O in
       let e := (64 - j)%nat in
       if negb (Nat.leb (t + j) 64) && negb (Nat.ltb e a) then
         (* the short read at the end of the last word leaves the reader's position a whole
@@ -395,7 +397,7 @@ Fixpoint tsearch (fuel : nat) (tb : N) (cands : list prefix) (dpt : nat) (s : bi
         Err InsufficientData
       else
       let bits_read := if Nat.leb (t + j) 64 then Nat.min t a else t in
-      let idxbits := firstn t (s ++ repeat false t) in
+      let idxbits := firstn t (firstn t s ++ repeat false t) in
       let cands' := filter (fun p => compatible (skipn dpt (p_code p)) idxbits) cands in
       if Nat.eqb bits_read t then tsearch f tb cands' (dpt + t) (skipn t s)
       else match cands' with
@@ -408,7 +410,7 @@ Fixpoint tsearch (fuel : nat) (tb : N) (cands : list prefix) (dpt : nat) (s : bi
 Definition read_code_at (tb : N) (ps : list prefix) (s : bits) : res (prefix * bits) :=
   do p <- tsearch 33 tb ps 0 s;
   (* the next read is bounds-checked: a code found with the help of padding bits fails there *)
-  if Nat.leb (length (p_code p)) (length s) then Ok (p, skipn (length (p_code p)) s)
+  if Nat.leb (length (p_code p)) (length (firstn 40 s)) then Ok (p, skipn (length (p_code p)) s)
   else Err InsufficientData.
 
 (* ---------------- number blocks: writer side (compress_nums) ---------------- *)
